@@ -20,8 +20,13 @@ static long decode_all (MEMF *m, int format, int ch, int rate, int **out, SF_INF
 	sf_close (s) ; return g ;
 }
 
+static void writer_option (SNDFILE *s, int format, int opt)
+{	switch (opt)
+	{	case 1 : sf_command (s, SFC_SET_ADD_PEAK_CHUNK, NULL, SF_FALSE) ; break ;
+		case 2 : if ((format & SF_FORMAT_TYPEMASK) == SF_FORMAT_WAVEX) sf_command (s, SFC_WAVEX_SET_AMBISONIC, NULL, SF_AMBISONIC_B_FORMAT) ; break ;
+		default : break ; } }		/* SFC_RF64_AUTO_DOWNGRADE is left to C04: it changes the container the snapshots report, by design */
 static void run_case (int format, int ch, int rate, int t, int mode /* 0 explicit, 1 auto, 2 raw+auto, 3 raw+explicit */, int pattern)
-{	MEMF m, m0 ; SNDFILE *s ; const char *fn = vh_fname (format) ; int B = vh_block (format, ch, rate), ncp = 0, i, ts = vh_tsize [t] ; long N = 0, total ; CP cps [48] ; char *data ; int *fin = NULL, *ref0 = NULL ; SF_INFO ri ; long gfin ;
+{	MEMF m, m0 ; SNDFILE *s ; const char *fn = vh_fname (format) ; int B = vh_block (format, ch, rate), ncp = 0, i, ts = vh_tsize [t] ; long N = 0, total ; CP cps [48] ; char *data ; int *fin = NULL, *ref0 = NULL, wopt ; SF_INFO ri ; long gfin ;
 	int granular = vh_sample_granular (format), bw = (vh_bits (format) ? vh_bits (format) / 8 : 1) * ch ;
 	const char *mname = mode == 0 ? "update-now" : mode == 1 ? "auto" : mode == 2 ? "raw+auto" : "raw+update-now" ;
 	total = (B > 1 ? 6 * B + 11 : 3000) ; if (total * ch > 40000) total = 40000 / ch ;
@@ -30,12 +35,15 @@ static void run_case (int format, int ch, int rate, int t, int mode /* 0 explici
 	{	double v = 0.6 * sin (i * 0.011) + 0.1 * sin (i * 0.29) ;
 		switch (t) { case T_SHORT : ((short *) data) [i] = (short) (v * 30000) ; break ; case T_INT : ((int *) data) [i] = (int) (v * 2.0e9) ; break ; case T_FLOAT : ((float *) data) [i] = (float) v ; break ; default : ((double *) data) [i] = v ; } }
 	/* run without any header update: the reference audio */
+	wopt = vh_rint (6) ; if (wopt > 3) wopt = 0 ; vh_statf (1, "writer-option:%d", wopt) ;		/* one header-only writer option per case, the same in both runs */
 	memset (&m0, 0, sizeof (m0)) ; s = vh_open_w (&m0, format, ch, rate, NULL) ; if (!s) { free (data) ; return ; }
+	writer_option (s, format, wopt) ;
 	if (mode >= 2) { if (sf_write_raw (s, data, total * bw) != total * bw) { sf_close (s) ; mv_free (&m0) ; free (data) ; return ; } }
 	else if (vh_write_t (s, t, 1, data, total * ch, ch) != total * ch) { sf_close (s) ; mv_free (&m0) ; free (data) ; vh_statf (1, "cannot_write:%s", fn) ; return ; }
 	sf_close (s) ;
 	/* run with updates, snapshot at every crash point */
 	memset (&m, 0, sizeof (m)) ; s = vh_open_w (&m, format, ch, rate, NULL) ;
+	writer_option (s, format, wopt) ;
 	if (mode == 1 || mode == 2) sf_command (s, SFC_SET_UPDATE_HEADER_AUTO, NULL, SF_TRUE) ;
 	while (N < total && ncp < 46)
 	{	long k ; sf_count_t w ;
@@ -67,12 +75,12 @@ static void run_case (int format, int ch, int rate, int t, int mode /* 0 explici
 			vh_viol (vh_key ("C11|snapshot-parameters|%s|%s", fn, mname), "crash point %d: channels %d format 0x%x rate %d, finished file: %d 0x%x %d", i, si.channels, si.format, si.samplerate, ri.channels, ri.format, ri.samplerate) ;
 		{	int ok = (F >= lo && F <= n) ;
 			if (!ok && granular && F == n + 1 && (n & 1) && bw == 1) ok = 1 ;	/* pad frame of an odd 1-byte stream (see C04) */
-			if (!ok) { vh_viol (vh_key ("C11|snapshot-frames|%s|%s|%s", fn, mname, F < lo ? "fewer-than-written" : "more-than-written"), "ch=%d %s: %ld frames written so far (block %d), the snapshot reports %ld", ch, vh_tname [t], n, B, F) ; free (dec) ; break ; }
+			if (!ok) { vh_viol (vh_key ("C11|snapshot-frames|%s|%s|%s%s", fn, mname, F < lo ? "fewer-than-written" : "more-than-written", (wopt == 1 && vh_is_fp (format & SF_FORMAT_SUBMASK)) ? "|option:no-peak-chunk" : ""), "ch=%d %s: %ld frames written so far (block %d), the snapshot reports %ld", ch, vh_tname [t], n, B, F) ; free (dec) ; break ; }
 			}
 		if (g != F) vh_viol (vh_key ("C11|snapshot-short-read|%s|%s", fn, mname), "crash point %d: header says %ld frames, reading delivers %ld", i, F, g) ;
 		else if (g > 0 && gfin >= g && memcmp (dec, fin, (size_t) g * ch * sizeof (int)))
 		{	long a = 0 ; while (a < g * ch && dec [a] == fin [a]) a++ ;
-			vh_viol (vh_key ("C11|snapshot-data|%s|%s", fn, mname), "crash point %d (%ld frames): decoded prefix differs from the finished file first at frame %ld", i, n, a / ch) ; }
+			vh_viol (vh_key ("C11|snapshot-data|%s|%s%s", fn, mname, a / ch == g - 1 ? "|last-frame-only" : ""), "crash point %d (%ld frames): decoded prefix differs from the finished file first at frame %ld", i, n, a / ch) ; }
 		else vh_stat ("snapshots_valid", 1) ;
 		free (dec) ;
 		}
